@@ -18,7 +18,7 @@ func init() {
 		Title: "A size survives every marshal form and configuration",
 		Run:   runC04,
 		Explanation: "Writer/reader agreement over constants, each a necessary condition of the round trip. C04.forms: MarshalJSON as a decision table over the two package switches emits object / quoted text / bare number; the object is {\"<ObjectKeyValue>\":<Shorten value>,\"<ObjectKeyUnit>\":\"<Shorten unit>\"}; MarshalText selects bare bytes or Formatter(nil, s, 0) by DisableMarshalTextUnit; DefaultRule's initialiser enables the object and string forms; UnmarshalText masks the rule to RuleDisableUnit, UnmarshalJSON passes DefaultRule. " +
-			"C04.quote: the string form is exactly '\"' + text + '\"' (the shift-by-one copy idiom is checked piece by piece). " +
+			"C04.exact: the reading side is exact near 2^64 — newSize as a decision table with the product checked through the high word of bits.Mul64 (C08's rules under this property). C04.quote: the string form is exactly '\"' + text + '\"' (the shift-by-one copy idiom is checked piece by piece). " +
 			"C04.vocab: every unit Shorten can return is a key of unitToValues with multiplier 2^(10·index), so value × multiplier rebuilds what Shorten split. " +
 			"C04.keys: the reader switches on the marshal key constants after strings.ToLower, and the constants are lower-case. " +
 			"C04.sep: the separator the pretty formatter emits (\" \") is skipped by the text parser before and between digits and before the unit; units are letters only, so the hand-made quoting needs no escaping. C04.limit: MaxInputLength admits the longest emitted form.",
